@@ -1022,9 +1022,15 @@ func (au *ApplyUpdate) UnmarshalJSON(b []byte) error {
 		numLeaves:    js.NumLeaves,
 	}
 	for i, els := range js.UpdatedLeaves {
+		if i < 0 || i >= len(au.eau.updated) {
+			return fmt.Errorf("invalid tree height %v in updatedLeaves", i)
+		}
 		au.eau.updated[i] = els
 	}
 	for i, els := range js.TreeGrowth {
+		if i < 0 || i >= len(au.eau.treeGrowth) {
+			return fmt.Errorf("invalid tree height %v in treeGrowth", i)
+		}
 		au.eau.treeGrowth[i] = els
 	}
 	return nil
@@ -1067,6 +1073,9 @@ func (ru *RevertUpdate) UnmarshalJSON(b []byte) error {
 		numLeaves: js.NumLeaves,
 	}
 	for i, els := range js.UpdatedLeaves {
+		if i < 0 || i >= len(ru.eru.updated) {
+			return fmt.Errorf("invalid tree height %v in updatedLeaves", i)
+		}
 		ru.eru.updated[i] = els
 	}
 	return nil
